@@ -68,8 +68,15 @@ def replay(case):
         q = 100.0 + i          # unique duty identifies the stream whatever it is called
         ts, tt = (200.0, 100.0) if s["kind"] == "H" else (50.0, 150.0)
         label = s["label"]
-        if pad and "/" in label:
-            label = " " + label.replace("/", " / ") + " "        # whitespace around path components is trimmed by the code
+        # the same path written less tidily (the code trims whitespace around components; with a user tree it also drops empty
+        # components): chosen per stream from the case itself, so that every run exercises every form
+        form = (sum(map(ord, label)) + i + len(streams) + (1 if pad else 0)) % 4
+        if "/" in label and form == 1:
+            label = " " + label.replace("/", " / ") + " "
+        elif "/" in label and form == 2 and case["userTree"]:
+            label = label + "/"
+        elif "/" in label and form == 3 and case["userTree"]:
+            label = label.replace("/", "//", 1)
         schemas.append(_OP["StreamSchema"](zone=label, name=s["name"], t_supply=ts, t_target=tt, heat_flow=q, dt_cont=5.0, htc=1.0))
     try:
         tree = _OP["ZoneTreeSchema"].model_validate(json.loads(json.dumps(TREES[int(case["userTree"])]))) if case["userTree"] else None
